@@ -54,6 +54,7 @@ MANIFEST = {
 }
 
 VERIF = Path(__file__).resolve().parent.parent
+REPLAY_APPLIES = {}
 WIRE_DROP = ("exc", "root")
 
 # ---------------------------------------------------------------------------------------------------
@@ -113,7 +114,8 @@ def _worker_cases(job):
     with open(job["out"], "w") as f:
         for r in out:
             f.write(json.dumps(r) + "\n")
-        f.write(json.dumps({"_meta": True, "nodes": h.nodes if h else 0, "norule": h.norule if h else 0, "setup_failure": failure}) + "\n")
+        f.write(json.dumps({"_meta": True, "nodes": h.nodes if h else 0, "norule": h.norule if h else 0, "setup_failure": failure,
+                            "applies": list(F.APPLY_LOG.values())}) + "\n")
 
 
 def _load_walks(job):
@@ -161,6 +163,7 @@ def _worker_replay(job):
         for (src, lab, dst, dst_state) in ws[wi]:
             name, args = tlc.parse_action_label(lab)
             path.append(lab)
+            F.CONTEXT[0] = f"{kind} machine: " + " ; ".join(path)
             if (src, lab, dst) in bad_edges:       # already reported: what follows it is not judged again
                 ok = False
                 break
@@ -202,6 +205,7 @@ def _worker_replay(job):
             bad_edges.discard((src, lab, dst))
         out["nodes"] += impl.nodes
     out["edges"] = [list(e) for e in edges]
+    out["applies"] = list(F.APPLY_LOG.values())
     Path(job["out"]).write_text(json.dumps(out))
 
 
@@ -290,8 +294,38 @@ def replay(pool, build, kind, wd, seed, nworkers, traces=None, tag="graph"):
     return futs
 
 
+def add_applies(table, items):
+    for a in items:
+        table.setdefault(json.dumps([a["name"], a["targs"], a["args"], a["ret"]], sort_keys=True), a)
+
+
+def judge_applies(build, level, applies, tag):
+    """TLC judges every distinct Apply node of a judged function name against the registered signatures.
+    -> (number judged, names not judged, [(apply record, why)])"""
+    from checks import _fetypes_registry as R
+
+    sigs, problems = R.judged_signatures()
+    if problems or not sigs:
+        raise RuntimeError(f"function registry of the working tree not understood: {problems[:3] or 'no signatures found'}")
+    items = [a for a in applies.values() if a["name"] in sigs]
+    skipped = sorted({a["name"] for a in applies.values() if a["name"] not in sigs})
+    if not items:
+        return 0, skipped, []
+    wd = tlc.prepare_dir(build / f"applies_{tag}", ["fetypes"])
+    with open(wd / "applies.ndjson", "w") as f:
+        for a in items:
+            f.write(json.dumps({"name": a["name"], "targs": a["targs"], "args": a["args"], "ret": a["ret"], "sigs": sigs[a["name"]]}) + "\n")
+    _tlc_eval((wd, "FrontEndTypesApply", {"FE_LEVEL": level, "FE_APPLIES": wd / "applies.ndjson", "FE_VERDICT": wd / "verdict.json"}))
+    v = json.loads((wd / "verdict.json").read_text())
+    if v["n"] != len(items):
+        raise RuntimeError("apply verdict did not see every node")
+    return len(items), skipped, [(items[b["i"] - 1], b["why"]) for b in v["bad"]]
+
+
 def collect_replay(futs):
     res = [json.loads(Path(f.result()["out"]).read_text()) for f in futs]
+    for r in res:
+        add_applies(REPLAY_APPLIES, r.get("applies", []))
     fails = [r["setup_failure"] for r in res if r.get("setup_failure")]
     if fails:
         return None, fails, []
@@ -347,6 +381,7 @@ def signature(rec, why):
 def run(ctx):
     t_start = time.time()
     phases = {}
+    REPLAY_APPLIES.clear()
     level = 0 if ctx.quick else 1
     nw = max(2, min(6, ctx.workers // 3))
     pool = ThreadPoolExecutor(32)
@@ -383,7 +418,7 @@ def run(ctx):
             job = {"what": "cases", "in": str(inp), "out": str(wdc / f"{p}_{i}.out")}
             case_futs.append(pool.submit(spawn_worker, job, wdc / f"{p}_{i}.job"))
     phases["gen"] = round(time.time() - t_start, 1)
-    recs, nodes, norule, setup_failures = [], 0, 0, []
+    recs, nodes, norule, setup_failures, applies = [], 0, 0, [], {}
     for f in case_futs:
         for line in Path(f.result()["out"]).read_text().splitlines():
             r = json.loads(line)
@@ -392,6 +427,7 @@ def run(ctx):
                 norule += r["norule"]
                 if r.get("setup_failure"):
                     setup_failures.append(("base-table", r["setup_failure"]))
+                add_applies(applies, r.get("applies", []))
             else:
                 recs.append(r)
     if not recs:
@@ -408,6 +444,7 @@ def run(ctx):
                 f.write(json.dumps({a: b for a, b in recs[i].items() if a not in WIRE_DROP}) + "\n")
         vjobs.append((wd, "FrontEndTypesVerdict", {"FE_LEVEL": level, "FE_CASES": wd / "cases.ndjson", "FE_VERDICT": wd / "verdict.json"}))
     vfuts = [pool.submit(_tlc_eval, j) for j in vjobs]
+    apply_fut = pool.submit(judge_applies, ctx.build, level, dict(applies), "b3")
     # ---- B1: replay of the machines' graphs (and simulated programs) ---------------------------------------------
     rfuts = {}
     mres = {}
@@ -475,6 +512,22 @@ def run(ctx):
     spec_only.sort()
     bad.sort()
     phases["verdict"] = round(time.time() - t_start, 1)
+    # ---- Apply nodes against the registered signatures -----------------------------------------------------------------
+    REPLAY_APPLIES_NEW = {k: a for k, a in REPLAY_APPLIES.items() if k not in applies}
+    n1, skipped1, bad1 = apply_fut.result()
+    n2, skipped2, bad2 = judge_applies(ctx.build, level, REPLAY_APPLIES_NEW, "machines") if REPLAY_APPLIES_NEW else (0, [], [])
+    advisory = []
+    for a, why in bad1 + bad2:
+        d = {"why": why, "function": a["name"], "type_args": [F.tstr(t) for t in a["targs"]], "argument_types": [F.tstr(t) for t in a["args"]],
+             "return_type": F.tstr(a["ret"]), "first_program": a["where"]}
+        if why == "no-signature":
+            ctx.violation(f"apply:no-signature:{a['name']}", d)
+        else:
+            advisory.append(d)       # ambiguity / a declared return type the engine does not consult: recorded, not alarmed
+    ctx.cov["apply_nodes"] = {"distinct_judged": n1 + n2, "function_names_not_judged": sorted(set(skipped1) | set(skipped2)),
+                              "no_signature": sum(1 for _a, w in bad1 + bad2 if w == "no-signature"), "advisory": advisory[:6]}
+    ctx.cov["evaluations"] += n1 + n2
+    phases["applies"] = round(time.time() - t_start, 1)
     agree = {}
     for f in agree_futs:
         part, n_all, n_acc, cex = f.result()
